@@ -31,12 +31,16 @@ pub fn run(only: &[String]) -> Vec<String> {
     let mut fails = Vec::new();
     let want = |f: &str| only.is_empty() || only.iter().any(|x| x == f);
     let mut nf = [0usize; 6];
-    for n in [3usize, 4] {
+    let deep = std::env::var("VERIF_BOUNDED_DEEP").is_ok();
+    // thorough tier: also the 120 permutations of 5 slots (all single generators, every 11th pair)
+    for n in if deep { vec![3usize, 4, 5] } else { vec![3usize, 4] } {
         let all = perms(n);
         let omega: SmallHashSet<Slot> = (0..n as u32).map(sl).collect();
         let identity = SlotMap::identity(&omega);
         let mut gensets: Vec<Vec<Vec<usize>>> = vec![vec![]];
-        for a in &all { gensets.push(vec![a.clone()]); for b in &all { if a < b { gensets.push(vec![a.clone(), b.clone()]); } } }
+        let mut ctr = 0usize;
+        for a in &all { gensets.push(vec![a.clone()]); for b in &all { if a < b { ctr += 1; if n < 5 || ctr % 11 == 0 { gensets.push(vec![a.clone(), b.clone()]); } } } }
+        if deep && n == 3 { for a in &all { for b in &all { for c in &all { if a < b && b < c { gensets.push(vec![a.clone(), b.clone(), c.clone()]); } } } } }
         for gens in &gensets {
             let gset: HashSet<Perm> = gens.iter().map(to_perm).collect();
             let g: Group<Perm> = Group::new(&identity, gset);
